@@ -13,6 +13,21 @@ theorem mem_dedup (x : κ) (xs : List κ) : x ∈ dedup xs ↔ x ∈ xs := by
     simp only [dedup, List.mem_cons, List.mem_filter, ih]
     by_cases h : x = y <;> simp [h]
 
+/-- de-duplication of a list extended by one element -/
+theorem dedup_concat (xs : List κ) (x : κ) :
+    dedup (xs ++ [x]) = if x ∈ xs then dedup xs else dedup xs ++ [x] := by
+  induction xs with
+  | nil => simp [dedup]
+  | cons a xs ih =>
+    simp only [List.cons_append, dedup, ih]
+    by_cases hx : x ∈ xs
+    · simp [hx]
+    · simp only [hx, if_false, List.filter_append]
+      by_cases ha : x = a
+      · subst ha; simp [dedup]
+      · have : (a = x) = False := by simp; exact fun h => ha h.symm
+        simp [ha, hx, this]
+
 theorem nodup_dedup (xs : List κ) : (dedup xs).Nodup := by
   induction xs with
   | nil => simp [dedup]
